@@ -1,5 +1,5 @@
 """Texts for MANIFEST.json. A property is listed in CLAIMED only once its check is silent on the unchanged tree."""
-HOOK_COMMITS = []
+HOOK_COMMITS = ['b792287', '8f86a84', '459984f', 'fd5a20d', '85697c7', 'bb47e22', '702fe54', '9bdec69', 'e1cb83e']
 NOTES = "All checks: ./check <id> --tier quick|thorough. Lean theorems are about hand-written models; the correspondence run ties them to /repo's working tree on every run. See DESIGN.md."
 NOTE = ("theorem about a hand-written Lean model; tied to /repo's working tree by the differential correspondence run of the same check "
         "(its reach is its generators' reach); Lean kernel + propext/Classical.choice/Quot.sound only; harness + cfg(redb_verif) hooks trusted")
@@ -16,6 +16,28 @@ CLAIMED = {
         "category": "proof",
         "design_ref": "DESIGN.md §6 C19",
     },
+    "C03": {
+        "text": "Lean theorems about an interleaving model of the write slot, root publication and reader registration (any number of threads): "
+                "one writer at a time; a commit becomes visible by one atomic publish and commits are published in version order; a reader "
+                "registered after a writer's release reads that version or a newer one; a thread's reads and the roots handed to successive "
+                "readers never go backwards; aborted or unpublished versions are never read; the monitor is sound (an accepted event stream is "
+                "the projection of a model execution). Correspondence: forced schedules through named pause points inside begin_read, "
+                "durable and non-durable commit, the root swap, the epilogue and the drops (thread T1 parked at each point it passes while "
+                "each of eight calls runs on T2); every merged event stream must be accepted by the monitor; implementation-only oracle: "
+                "three tables updated together are read back consistent, final version = last completed commit.",
+        "note": NOTE + "; two threads and one preemption per schedule at hand-placed pause points: preemption inside a lock-protected block, weak-memory reordering and three-way races are not exhibited; the theorems are about the model's atomic actions",
+        "technique": "Lean 4 proof (interleaving model: invariants over all executions, monitor soundness) + forced schedules of the real code through pause-point hooks",
+    },
+    "C16": {
+        "text": "Lean theorems: operations on different tables of one transaction commute and each table ends as the fold of its own stream; "
+                "page sets of different tables stay disjoint under every interleaving; under the `tables` lock a savepoint can exist only "
+                "while allocation tracking is on, and without the lock a three-step counter-example is reachable. Correspondence: forced "
+                "schedules through the pause points in set_dirty and ephemeral_savepoint answer as the locked model; random transactions "
+                "whose tables are driven by one thread each (plus a savepoint thread) are followed by per-table contents comparison and by "
+                "the exact page-accounting / ownership monitor of the history harness.",
+        "note": NOTE + "; apart from the set_dirty / ephemeral_savepoint window the interleavings are whatever the OS schedules (16 cores, many short transactions): races on the sharded allocation sets, the tracking flag and the striped write buffer are sampled, not enumerated; data races below the lock level are out of this technique's reach",
+        "technique": "Lean 4 proof (commutation / disjointness / lock atomicity) + multi-threaded runs of the real code with forced and OS-chosen schedules, judged by the proven ownership monitor",
+    },
     "C20": {
         "text": "Lean theorems: the contract automaton accepts a call stream iff close occurs exactly once and as the last call, and (read-only) "
                 "no write/set_len/sync_data occurs; layout arithmetic: every in-range page lies entirely inside the file, pages of different "
@@ -23,8 +45,10 @@ CLAIMED = {
                 "inside the current length, that the file is never shorter than a page in use, close count and calls after close; dedicated "
                 "scenarios cover every failing open (bad magic/geometry, truncated/extended, aborted repair, an I/O error at each call of the "
                 "open path), read-only databases, a Database dropped with a live write transaction and readers outliving it. A genuine "
-                "defect found by this check (read beyond the end of a file truncated inside the header) was fixed (known_findings.json).",
-        "note": NOTE + "; the close-versus-in-flight-call race under preemption (DESIGN F1) is not exercised yet (needs pause points); bounds are observed, not proved about the code",
+                "defect found by this check (read beyond the end of a file truncated inside the header) was fixed (known_findings.json). Forced "
+                "schedules park a reader between the closed-latch test and each of its backend reads while another thread drops the Database: "
+                "the second genuine defect (a backend read reaching the backend after close()) was reproduced this way and fixed.",
+        "note": NOTE + "; bounds are observed, not proved about the code; of all thread interleavings only the close-versus-in-flight-read schedules are forced",
         "technique": "Lean 4 proof (contract automaton, layout arithmetic) + recording backend on the real code",
         "design_ref": "DESIGN.md §6 C20",
     },
